@@ -105,6 +105,8 @@ func runC05(c *kit.Ctx) {
 	}
 
 	// ---- R2 ---------------------------------------------------------------
+	requestsAreMarshalledWithRequiredFields(c)
+
 	c.StartRule("R2", "declared cellblock length and written cellblocks are paired", 6)
 	multiBuildsItsRequestInFreshMemory(c)
 	scbName := "(" + kit.Module + "/region.canSerializeCellBlocks).SerializeCellBlocks"
@@ -203,14 +205,35 @@ func runC05(c *kit.Ctx) {
 			for _, call := range kit.Calls(multiTP, scbName) {
 				blk, sz := kit.ExtractOf(call.Value(), 1), kit.ExtractOf(call.Value(), 2)
 				stored, added := false, false
-				for _, r := range kit.Referrers(blk) {
+				// the uses of a value, also after it was merged with what the other ways yield (a helper that returns
+				// the blocks unchanged and size 0 where the call has no cellblocks)
+				usesOf := func(v ssa.Value) []ssa.Instruction {
+					var out []ssa.Instruction
+					seen := map[ssa.Value]bool{}
+					var walk func(w ssa.Value, depth int)
+					walk = func(w ssa.Value, depth int) {
+						if w == nil || seen[w] || depth > 4 {
+							return
+						}
+						seen[w] = true
+						for _, r := range kit.Referrers(w) {
+							out = append(out, r)
+							if ph, ok := r.(*ssa.Phi); ok {
+								walk(ph, depth+1)
+							}
+						}
+					}
+					walk(v, 0)
+					return out
+				}
+				for _, r := range usesOf(blk) {
 					if st, ok := r.(*ssa.Store); ok {
 						if fa, ok := st.Addr.(*ssa.FieldAddr); ok && kit.FieldVar(fa.X.Type(), fa.Field).Name() == "cellblocks" {
 							stored = true
 						}
 					}
 				}
-				for _, r := range kit.Referrers(sz) {
+				for _, r := range usesOf(sz) {
 					if bo, ok := r.(*ssa.BinOp); ok && bo.Op == token.ADD {
 						added = true
 					}
@@ -405,6 +428,7 @@ func runC05(c *kit.Ctx) {
 	// ---- R6 ---------------------------------------------------------------
 	c.StartRule("R6", "one writer at a time on the connection", 2)
 	sendPathSharesNoMemory(c)
+	buffersAreFreedAfterTheWrite(c)
 	everyWriteErrorIsReported(c)
 	c.Table("C05.R6: sendHello's write is exempt (runs inside dialOnce before the connection goroutines exist; re-checked by R7)")
 	{
@@ -463,7 +487,7 @@ func runC05(c *kit.Ctx) {
 			good := len(hs) == 1
 			if good {
 				kit.Instrs(lit, func(in ssa.Instruction) {
-					if g, ok := in.(*ssa.Go); ok && !kit.Dominates(hs[0].(ssa.Instruction), g) {
+					if g, ok := in.(*ssa.Go); ok && !kit.Precedes(hs[0].(ssa.Instruction), g) {
 						good = false
 					}
 				})
@@ -524,6 +548,9 @@ func runC05(c *kit.Ctx) {
 	if !c.Frozen {
 		embed(c, "R9", "the scan requests that go out carry the bounds, direction and scanner state the scan is in (the rules of C06, run as one rule here)", 20, runC06)
 		embed(c, "R10", "the cells that go out are the ones the mutation denotes, in both encodings (the rules of C10, run as one rule here)", 30, runC10)
+		embed(c, "R14", "only calls that can be expressed inside a multi-request are put into one: a batch with a call that cannot (a conditional mutation) is rejected as a whole (the rules of C12, run as one rule here)", 50, runC12)
+		embed(c, "R12", "the close request of a scanner is addressed to the region that holds the open scanner (the rules of C14, run as one rule here)", 15, runC14)
+		embed(c, "R13", "a request object is written by one connection only: the pending batch is never shared between connections or reused while in flight (the rules of C03, run as one rule here)", 30, runC03)
 		embed(c, "R11", "every request, also every action of a multi-request whatever the grouping, names the region of the call it was built from (the rules of C01, run as one rule here)", 30, runC01)
 	}
 }
@@ -602,7 +629,7 @@ func pairedLenBlocks(l, b ssa.Value, scbName string) (bool, string) {
 						if st, ok := in.(*ssa.Store); ok {
 							if ia, ok := st.Addr.(*ssa.IndexAddr); ok && ia.X == ssa.Value(arr) {
 								n++
-								if st.Val == x {
+								if st.Val == x || kit.Root(st.Val) == kit.Root(x) {
 									same = true
 								}
 							}
